@@ -176,4 +176,26 @@ pub fn run(ctx: &Ctx) {
             Ok(Ok(o)) => { ctx.eval(format!("{shape}:accepted")); ctx.violation(format!("{P}:tx:{hname}:{}:accepted", lit_shape(lit)), format!("the document has a fee-market field, which makes it EIP-1559, holding {} - it was accepted (as kind {:?}) with the field ignored", lit.to_text(), o.kind), replay) }
         }
     });
+    // size x defect: calldata of around 2^k digits (k = 10..=17) whose ONLY defect is at the very end - an odd number of digits,
+    // a non-hex last digit, a blank after the last digit - and the same sizes without defect (block-wise decoders)
+    let sizes: Vec<usize> = (10..=17u32).flat_map(|k| [(1usize << k) - 2, 1 << k, (1 << k) + 2]).collect();
+    let defects = ["none", "odd-one-more-digit", "odd-one-less-digit", "last-digit-not-hex", "blank-after-last-digit", "blank-before-last-digit"];
+    ctx.sweep("large-byte-field-defect-at-the-end", "calldata of 2^k - 2, 2^k, 2^k + 2 hex digits for k = 10..=17 x {no defect, one digit more, one digit less, a non-hex last digit, a blank after / before the last digit}: taken exactly, or (defect) refused", (sizes.len() * defects.len()) as u64, |i| {
+        let n = sizes[i as usize / defects.len()]; let d = defects[i as usize % defects.len()];
+        let mut digits: String = (0..n).map(|x| char::from_digit(((x * 7 + 3) % 16) as u32, 16).unwrap()).collect();
+        match d { "odd-one-more-digit" => digits.push('a'), "odd-one-less-digit" => { digits.pop(); } "last-digit-not-hex" => { digits.pop(); digits.push('g'); } "blank-after-last-digit" => digits.push(' '), "blank-before-last-digit" => { let c = digits.pop().unwrap(); digits.push(' '); digits.push(c); } _ => {} }
+        let mut tx = txjson::template(Kind::Eip1559, true); let mut f = txjson::tx_fields(&tx, Spell::Auto); txjson::set(&mut f, "data", Some(J::Str(format!("0x{digits}"))));
+        let text = J::Obj(f).to_text(); let shape = format!("calldata-digits~2^{},{d}", (n as f64).log2().round() as u32);
+        let replay = json!({"sweep": "large-byte-field-defect-at-the-end", "index": i, "entry": "serde_json::from_str::<Transaction>", "digits": n, "defect": d});
+        ctx.sample("large-byte-field-defect-at-the-end", || replay.clone());
+        if d == "none" { tx.data = unhex(&digits).unwrap(); }
+        emit_tx(ctx, "large-byte-field-defect-at-the-end", i, 5, &shape, &text, if d == "none" { Some(&tx) } else { None }, if d == "none" { "must-accept" } else { "must-reject" }, &refmodel::secp::Curve::new());
+        match observe_tx(&text, &sig) {
+            Err(p) => { ctx.eval(format!("{shape}:panic")); ctx.panic_violation(format!("{P}:tx:{shape}:panic@{}", explore::panic_site(&p)), format!("panics: {p}"), replay) }
+            Ok(Err(e)) => { ctx.eval(format!("{shape}:rejected")); if d == "none" { ctx.violation(format!("{P}:tx:calldata-large,{d}:rejected"), format!("well-formed calldata of {n} digits is rejected: {e}"), replay) } }
+            Ok(Ok(o)) => { ctx.eval(format!("{shape}:accepted"));
+                if d != "none" { ctx.violation(format!("{P}:tx:calldata-large,{d}:accepted"), format!("calldata of about {n} digits with the defect '{d}' at its end is accepted"), replay) }
+                else if let Some((k, what)) = compare_tx(&refmodel::secp::Curve::new(), &tx, &o, None) { ctx.violation(format!("{P}:tx:calldata-large,none:{k}"), what, replay) } }
+        }
+    });
 }
